@@ -102,6 +102,9 @@ class Artifacts:
         sets["shipped"] = sorted(shipped)
         corpus_root = os.path.join(VERIF, "corpus")
         sets["corpus"] = sorted((f, os.path.join(corpus_root, f)) for f in os.listdir(corpus_root) if f.endswith(".eql"))
+        # programs that only the type checker looks at (T-TYPECHECK): the emitted code is not of the shape the other rules read
+        tc_root = os.path.join(VERIF, "corpus_tc")
+        sets["tconly"] = sorted((f, os.path.join(tc_root, f)) for f in (os.listdir(tc_root) if os.path.isdir(tc_root) else []) if f.endswith(".eql"))
         # thorough tier: the compiler's own theory, and the bounded-exhaustive family of flat-shaped rules
         sets["selfhost"] = [("eqlog.eql", os.path.join(REPO, "eqlog-eqlog", "src", "eqlog.eql"))]
         return sets
